@@ -443,6 +443,20 @@ Proof.
     + intros _. rewrite (group_bug_inv _ _ _ _ Hok Hg). reflexivity.
 Qed.
 
+Lemma provide_bug_inv prim fb pord ford tc :
+  order_ok prim pord = true -> order_ok fb ford = true ->
+  provide prim fb pord ford tc = RBug -> prim = [].
+Proof.
+  intros Hp Hf. unfold provide.
+  assert (forall w l base order, lift w l (run_group l base tc order) = RBug -> run_group l base tc order = GBug) as G.
+  { intros w l base order H. destruct (run_group l base tc order); simpl in H; try discriminate; auto.
+    destruct (out (get l i)); discriminate. }
+  destruct (consult prim fb (run_group prim 0 tc pord)) eqn:Ec; intro H.
+  - destruct (consult_inv _ _ _ Ec) as [i [c [_ [_ [_ Hne]]]]].
+    apply G in H. apply (group_bug_inv _ _ _ _ Hf) in H. congruence.
+  - apply G in H. apply (group_bug_inv _ _ _ _ Hp) in H. exact H.
+Qed.
+
 Lemma consulted_inv prim fb pord tc :
   order_ok prim pord = true -> consulted prim fb pord tc = true ->
   forallb (fun n => failed (out n)) prim = true /\ prim <> [] /\ fb <> [] /\
@@ -544,7 +558,8 @@ Proof.
   intro Hacc. destruct (accepts_inv c Hacc) as [Hp [Hf [Hres [Htime [Hlen Hcall]]]]].
   (* fails only if all fail *)
     unfold m_fail. pose proof (provide_fail_inv (c_prim c) (c_fb c) (c_pord c) (c_ford c) (c_tc c) Hp) as H.
-    rewrite <- Hres in H. destruct (o_res c); auto.
+    pose proof (provide_bug_inv (c_prim c) (c_fb c) (c_pord c) (c_ford c) (c_tc c) Hp Hf) as B.
+    rewrite <- Hres in H, B. destruct (o_res c); auto. rewrite B; reflexivity.
 Qed.
 
 Lemma mon_fallback c : accepts c = true -> m_fallback c = true.
@@ -700,6 +715,12 @@ Proof.
   { apply G. destruct H as [H|[n [e H]]]; rewrite H; exact I. }
   rewrite forallb_forall in Haf. apply Haf. apply get_in. exact Hk.
 Qed.
+
+(* The internal error "bug: no forkjoin results" is returned only when no primary is configured. *)
+Theorem bug_only_without_primaries prim fb pord ford tc :
+  order_ok prim pord = true -> order_ok fb ford = true ->
+  provide prim fb pord ford tc = RBug -> prim = [].
+Proof. exact (provide_bug_inv prim fb pord ford tc). Qed.
 
 (* The primaries' error that is returned is that of the LAST completing primary. *)
 Theorem error_is_last_completing prim fb pord ford tc i e :
